@@ -524,3 +524,10 @@ package common
 //@         ptsP(conn, q, n) == (old(ptsP(conn, q, n)) || (q == protocol && portNum != 0 - 1 && n == portNum))
 //@   ensures [C06] names: forall q v1.Protocol, s string :: {s in conn.AllowedProtocols[q].NamedPorts}
 //@         npts(conn, q, s) == (old(npts(conn, q, s)) && !(q == protocol && s == namedPort))
+
+// A-fmt: the printed form of a connection set ("All Connections", "No Connections", or protocol/port items joined by ",")
+// is never empty and contains no ';' (port names are IANA service names). Assumed, not verified.
+//@ func (*ConnectionSet).String
+//@   trusted
+//@   requires conn != nil
+//@   ensures [C04] shape: res != "" && noSemi(res)
